@@ -147,7 +147,8 @@ impl Observer for TimerMonitor {
                 if t.pingresp_timeout == 0 && !pr.is_empty() {
                     return Err(fail("C15.pingresp_timer", format!("armed_for_zero/{v}"), format!("PINGRESP timer armed {pr:?} although no timeout is configured")));
                 }
-                if t.pingresp_timeout != 0 && pr != vec![t.pingresp_timeout] {
+                // (armed once or, redundantly, several times - but always with the configured timeout)
+                if t.pingresp_timeout != 0 && (pr.is_empty() || pr.iter().any(|x| *x != t.pingresp_timeout)) {
                     return Err(fail("C15.pingresp_timer", format!("not_armed/{v}"), format!("PINGREQ sent with response timeout {} ms configured, but the timer requests are {pr:?}: {}", t.pingresp_timeout, brief_list(list))));
                 }
             }
